@@ -29,7 +29,7 @@ from ..selftest import Variant
 
 LEVEL = "other"
 META = {
-    "technique": "static analysis: must-precede ordering by structured-flow dominance, typestate of configuration objects (attributes assigned before escape), sibling cross-check of the three configure_* loops, def-use lint of configurable attributes over the static rule table",
+    "technique": "static analysis: must-precede ordering by structured-flow dominance, typestate of configuration objects (attributes assigned before escape), sibling cross-check of the three configure_* loops, def-use lint of configurable attributes over the static rule table; position-preservation shape proof of the flattening used for positional per-file look-up",
     "level_text": "Decides the structural facts behind precedence for every rule x attribute x level: the order in which the three levels and the per-file "
     "sections are applied, the direction and granularity of the multi-file merge, that validation dominates use, that configuration objects are "
     "fully initialised before use, and that rules act on the configured attribute itself rather than on a stale copy.",
